@@ -161,6 +161,28 @@ def run(ctx):
     ctx.check("R3", gf, len(aw) == 1 and A.unparse(aw[0].args[0]) == "self._source" and bool(guard), "write-handle-is-atomic", "a path-backed CONTENTS is written through AtomicWriteFile(self._source)")
     ctx.floor("R3", 4)
 
+    # ---- R4 a reusable file object handed out for writing starts empty -------------------------------------------------
+    from ..core.cfg import cfg_of
+    wp = gf.params()[1] if len(gf.params()) > 1 else None
+    g4 = cfg_of(gf.node)
+    reuse = [(t.id, st) for t, v, st in A.assignments(gf.node) if isinstance(t, ast.Name) and isinstance(v, ast.Call) and A.call_attr(v) in ("text_fileobj", "bytes_fileobj")]
+    ctx.check("R4", gf, bool(reuse) and wp is not None, "datasource-handle-present", "a data_source-backed CONTENTS hands out the source's own file object")
+    for name, st in reuse:
+        trunc = [g4.node_of(c) for c in A.calls(gf.node) if A.unparse(c.func) == f"{name}.truncate"]
+        rets = [g4.node_of(r) for r in A.returns(gf.node) if isinstance(r.value, ast.Name) and r.value.id == name]
+
+        def writing(a_, b_, lab, _wp=wp):
+            # follow only the branches taken when the handle is requested for writing
+            if a_.ast is not None and isinstance(a_.ast, ast.If) and isinstance(a_.ast.test, ast.Name) and a_.ast.test.id == _wp:
+                return lab is True
+            return True
+        path = g4.find_path([g4.node_of(st)], lambda n: n in rets, avoid=lambda n: n in trunc, edge_ok=writing)
+        ctx.check("R4", gf, path is None and bool(rets), f"write-handle-truncated:{name}",
+                  "the file object of a data_source is truncated before it is returned for writing",
+                  f"_get_fd(write=True) returns the data_source's file object `{name}` only rewound, not truncated ({g4.fmt_path(path, gf.relpath) if path else ''}): "
+                  f"when the new CONTENTS is shorter than the old one the tail of the old text survives and stale or torn entries are read back", node=st)
+    ctx.floor("R4", 2)
+
 
 MUTANTS = [
     {"name": "split-whitespace", "file": "src/pkgcore/vdb/contents.py", "old": "            s = line.split(\" \")", "new": "            s = line.split()", "rule": "R1"},
